@@ -167,6 +167,16 @@ fn soundness(rng: &mut Rng, st: &mut Stats) {
             Some("after-negative-number-value")
         } else if r.features.iter().any(|f| *f == "terminator") {
             Some("after-value-terminator")
+        } else if {
+            // an option value spelled like a subcommand of its level
+            fn has(c: &CmdSpec, li: &LevelIntent) -> bool {
+                let names: Vec<&String> = c.subs.iter().flat_map(|s| std::iter::once(&s.name).chain(s.aliases.iter().map(|(a, _)| a))).collect();
+                li.items.iter().any(|it| matches!(it, Item::Opt { toks, .. } if toks.iter().any(|t| names.contains(&t))))
+                    || li.sub.as_ref().map(|(si, ch)| has(&c.subs[*si], ch)).unwrap_or(false)
+            }
+            has(&spec, &intent)
+        } {
+            Some("after-value-spelled-like-subcommand")
         } else if r.features.iter().any(|f| *f == "alias.long-hidden" || *f == "alias.short-hidden") {
             // (monitored, silent so far: the least specific stratum goes last)
             Some("after-hidden-alias")
